@@ -286,19 +286,24 @@ struct CaseOut {
 
 fn run_case(cat: &[(&'static str, DataType)], spec: &CaseSpec, seed: u64, stage_tag: u64, selftest: u64) -> CaseOut {
     let mut rng = Rng::derive(seed, &[12, stage_tag, spec.index]);
-    let n = match rng.below(12) {
-        0 => 0,
-        1 => 1,
-        2..=6 => 1 + rng.usize(spec.max_rows.min(9)),
-        _ => 1 + rng.usize(spec.max_rows),
+    let n = if spec.forced {
+        // systematic pairs: enough rows, repeats and NULLs for the transform to have something to act on
+        4 + rng.usize(spec.max_rows.saturating_sub(3).max(1))
+    } else {
+        match rng.below(12) {
+            0 => 0,
+            1 => 1,
+            2..=6 => 1 + rng.usize(spec.max_rows.min(9)),
+            _ => 1 + rng.usize(spec.max_rows),
+        }
     };
     let seed_n = rng.next_u64();
     let mut cols: Vec<Column> = vec![];
     for (ci, ti) in spec.types.iter().enumerate() {
         let (family, dt) = &cat[*ti];
         let dom = domain(dt, DomOpts { neg_zero: false, nan2: true, huge: false }, 4 + rng.usize(9), &mut rng);
-        let null_of_8 = *rng.pick(&[0u64, 0, 2, 5, 8]);
-        let runny = matches!(dt, DataType::RunEndEncoded(_, _)) || rng.chance(1, 4);
+        let null_of_8 = if spec.forced { *rng.pick(&[2u64, 3]) } else { *rng.pick(&[0u64, 0, 2, 5, 8]) };
+        let runny = spec.forced || matches!(dt, DataType::RunEndEncoded(_, _)) || rng.chance(1, 4);
         let vals = gen_rows(dt, &dom, n, null_of_8, runny, &mut rng);
         let canon = Builder::canonical(&mut rng).build(dt, &vals, true);
         // in multi-column cases some columns stay canonical so that the combine step sees mixtures
@@ -364,21 +369,21 @@ fn run_case(cat: &[(&'static str, DataType)], spec: &CaseSpec, seed: u64, stage_
             "observed_hashes": observed.iter().map(|h| format!("{h:#018x}")).collect::<Vec<_>>(),
         })
     };
-    // which column's encoding is responsible: the mismatch disappears when that column alone is canonical
+    // which column's encoding is responsible: all other columns canonical, this one encoded, hashes change
     let culprit = |api: &str, expected: &[u64]| -> String {
         if cols.len() == 1 {
             return format!("{}/single-column", shape(&cols[0].dt));
         }
         for (j, c) in cols.iter().enumerate() {
-            let mut mixed = enc.clone();
-            mixed[j] = canon[j].clone();
+            let mut mixed = canon.clone();
+            mixed[j] = enc[j].clone();
             if let Ok(h) = hash_with(api, &mixed, n, seed_n) {
-                if h[..] == expected[..] {
+                if h[..] != expected[..] {
                     return format!("{}/{}", shape(&c.dt), if j == 0 { "first-of-several-columns" } else { "later-column" });
                 }
             }
         }
-        "several-columns".to_string()
+        "only-in-combination".to_string()
     };
     let mut corrupted = false;
     // kind -> (culprit, apis, witness of the first api)
@@ -702,7 +707,8 @@ fn run(args: &Args) -> i32 {
     let mut work: Vec<Work> = vec![];
     let mut index = 0u64;
     // 1. systematic: every type x every single transform (forced), a few value sets each
-    let value_sets = if miri { 1 } else { args.bound("value_sets", 3, 12) };
+    let memcheck = args.stage == "memcheck"; // valgrind: the same workload, about two orders of magnitude smaller
+    let value_sets = if miri { 1 } else if memcheck { 2 } else { args.bound("value_sets", 3, 12) };
     for ti in 0..cat.len() {
         if !type_ok(ti) {
             continue;
@@ -718,7 +724,13 @@ fn run(args: &Args) -> i32 {
         work.push(Work::Hash(CaseSpec { types: vec![ti], knobs: vec![], forced: false, index, max_rows }));
     }
     // 2. random tail: 1..4 columns, random transform mixes
-    let tail = if miri { args.bound("tail", 40, 40) } else { args.bound("tail", 150_000, 6_000_000) };
+    let tail = if miri {
+        args.bound("tail", 100, 100)
+    } else if memcheck {
+        args.bound("tail", 20_000, 60_000)
+    } else {
+        args.bound("tail", 400_000, 12_000_000)
+    };
     let mut trng = Rng::derive(args.seed, &[12, 999]);
     let eligible: Vec<usize> = (0..cat.len()).filter(|i| type_ok(*i)).collect();
     for _ in 0..tail {
@@ -732,7 +744,7 @@ fn run(args: &Args) -> i32 {
         work.push(Work::Hash(CaseSpec { types, knobs, forced: false, index, max_rows }));
     }
     // 3. scalars
-    let scalar_rounds = if miri { 1 } else { args.bound("scalar_rounds", 30, 1200) };
+    let scalar_rounds = if miri { 1 } else if memcheck { 5 } else { args.bound("scalar_rounds", 30, 1200) };
     for ti in 0..cat.len() {
         if !type_ok(ti) {
             continue;
@@ -746,6 +758,7 @@ fn run(args: &Args) -> i32 {
     let seed = args.seed;
     let workers = if cfg!(miri) { 1 } else { args.workers };
     let reported: std::sync::Mutex<std::collections::BTreeMap<String, u64>> = std::sync::Mutex::new(Default::default());
+    let matrix: std::sync::Mutex<std::collections::BTreeMap<String, std::collections::BTreeMap<&'static str, u64>>> = std::sync::Mutex::new(Default::default());
     let report_violation = |sig: String, detail: Json| {
         let nth = {
             let mut g = reported.lock().unwrap();
@@ -795,12 +808,23 @@ fn run(args: &Args) -> i32 {
             if let Some(u) = &out.unsupported {
                 rep.skip(&format!("unsupported: {u}"));
             }
+            {
+                let mut m = matrix.lock().unwrap();
+                for (_, ty, applied) in &out.cols {
+                    let row = m.entry(ty.clone()).or_default();
+                    for k in applied {
+                        *row.entry(*k).or_insert(0) += 1;
+                    }
+                    if applied.is_empty() {
+                        *row.entry("(canonical)").or_insert(0) += 1;
+                    }
+                }
+            }
             for (family, ty, applied) in &out.cols {
                 rep.seen("type", ty);
                 rep.count(&format!("cases/{family}"), 1);
                 for k in applied {
                     rep.count(&format!("matrix/{family}/{k}"), 1);
-                    rep.seen("type-x-transform", &format!("{ty} x {k}"));
                 }
                 if applied.is_empty() {
                     rep.count(&format!("matrix/{family}/(canonical)"), 1);
@@ -862,13 +886,18 @@ fn run(args: &Args) -> i32 {
             .collect();
         rep.obligation("every-type-family-under-some-transform", missing.is_empty(), &format!("families never physically transformed: {missing:?}"));
         let dead: Vec<&str> = KNOBS.iter().copied().filter(|k| !families.iter().any(|f| rep.get_count(&format!("matrix/{f}/{k}")) > 0)).collect();
-        rep.obligation("every-transform-took-effect", dead.is_empty(), &format!("transforms that never took effect: {dead:?}"));
+        if miri {
+            rep.extra("transforms_without_effect_in_this_reduced_run", json!(dead));
+        } else {
+            rep.obligation("every-transform-took-effect", dead.is_empty(), &format!("transforms that never took effect: {dead:?}"));
+        }
         let multi = rep.get_count("cases_with_columns/2") + rep.get_count("cases_with_columns/3") + rep.get_count("cases_with_columns/4");
         rep.obligation("multi-column-combine-exercised", multi > 0, "no case with 2..4 key columns");
         if selftest == 0 {
             rep.obligation("scalar-equal-pairs-observed", rep.get_count("scalar_equal_pairs_hash_compared") > 0, "no pair of equal ScalarValues was built");
         }
     }
+    rep.extra("matrix_type_x_transform", json!(*matrix.lock().unwrap()));
     rep.extra("catalogue_types", json!(cat.len()));
     rep.extra("transforms", json!(KNOBS));
     rep.extra("hash_apis", json!(hasher_apis()));
